@@ -667,6 +667,10 @@ def rule_C03(c):
                 "%s runs on a path where %s does not hold" % (callee_name(call), " and ".join(missing)), facts)
     # (b) every path through the loop body either multiplies both by the same scalar, or neutralises and marks INVALID
     latch = [n for n in g.nodes if n.kind == "stmt" and n.tag == "inc" and head in n.succ]
+    if not latch:
+        # `while (i < n) { …; i++; }`: the back edge comes from the statement that steps the counter
+        latch = [n for n in g.nodes if head in n.succ and n is not head and g.dominates(head, n) and n.expr is not None
+                 and re.match(r"^\(?%s\+\+\)?$|^\(?\+\+%s\)?$|^\(?%s \+= 1\)?$" % ((re.escape(idx),) * 3), g.r(n.expr))]
     body_entry = br[0].succ[0] if br else None
     if not latch or body_entry is None:
         c.und("C03.R1", fn + "/body", c.pos(g, head), "loop body shape not recognised")
@@ -1119,7 +1123,19 @@ def rule_C04(c):
             facts = g.resolved_facts(w[0][0])
             c.check(any(re.match(r"^i(__\w+)? >= ", f) or re.match(r"^\w+\(.*\) == VALID$", f) for f in facts) and g.r(w[0][1]["inner"][1]) == out, "C04.R3", "E1_sum_vector_byte/write-after-all-read", c.pos(g, w[0][0]), "output written after the read loop finished", "output is written before all inputs were read", facts)
         sv = g.calls("E1_sum_vector")
-        okk = bool(sv) and g.r(sv[0][1]["inner"][2]) == "vec" and g.r(sv[0][1]["inner"][3]) == "n"
+        # by role: the array the reader fills element-wise in the loop, and that loop's bound
+        arr_, bound_ = "vec", "n"
+        rd_ = g.calls("E1_read_bytes")
+        if rd_:
+            mo_ = re.match(r"&(\w+)\[(\w+)\]$", g.r(rd_[0][1]["inner"][1]))
+            head_ = loop_of(g, rd_[0][0])
+            if mo_ and head_ is not None:
+                arr_ = mo_.group(1)
+                br_ = [s_ for s_ in head_.succ if s_ is not None and s_.kind == "branch"]
+                mc_ = re.match(r"\(%s < (\w+)\)$" % re.escape(mo_.group(2)), g.r(br_[0].expr)) if br_ else None
+                if mc_:
+                    bound_ = mc_.group(1)
+        okk = bool(sv) and g.r(sv[0][1]["inner"][2]) == arr_ and g.r(sv[0][1]["inner"][3]) == bound_
         c.check(okk, "C04.R3", "E1_sum_vector_byte/sum-range", c.p.pos(g.f), "sum runs over all n parsed points", "sum does not cover the n parsed points")
         rd = [(n_, call) for n_, call in g.calls("E1_read_bytes")]
         # the loop counter: whatever indexes the destination element of the read (`&vec[k]`), also when the loop was moved
@@ -1230,6 +1246,38 @@ def coverage_at(c, g, n, inb, env, depth=0):
             if k:
                 covered |= set(range(0, k))
                 how.append("memcpy %d" % k)
+        # a byte-wise helper of the glue `H(p, n)` that reads p[0..n-1] in one counted loop, applied to in+off
+        if cn in c.p.funcs and len(args) == 2 and depth < 2:
+            a0 = g.r(args[0])
+            off = 0 if a0 == inb else None
+            mo = re.match(r"\(%s \+ (\d+)\)$" % re.escape(inb), a0) or re.match(r"&%s\[(\d+)\]$" % re.escape(inb), a0)
+            if mo:
+                off = int(mo.group(1))
+            k = const_eval(args[1], env)
+            if off is not None and k:
+                try:
+                    hg = c.p.cfg(cn)
+                    hps = [p_["name"] for p_ in c.p.params(cn)]
+                    whole = False
+                    for hh in hg.nodes:
+                        if hh.kind != "loophead":
+                            continue
+                        hbrs = [s_ for s_ in hh.succ if s_ is not None and s_.kind == "branch"]
+                        if not hbrs:
+                            continue
+                        hm = re.match(r"\((\w+) < (\w+)\)$", hg.r(hbrs[0].expr))
+                        if not hm or hm.group(2) != hps[1]:
+                            continue
+                        hinit = hg.loop_init(hh, hm.group(1))
+                        if hinit is None or const_eval(hinit, env) != 0:
+                            continue
+                        if any(hg.r(ie_) == hm.group(1) and hg.dominates(hbrs[0], mm_) for mm_, ie_ in index_reads(hg, hps[0])):
+                            whole = True
+                    if whole:
+                        covered |= set(range(off, off + k))
+                        how.append("helper %s over [%d,%d)" % (cn, off, off + k))
+                except Exception:
+                    pass
         if cn in ("Fp_read_bytes", "Fp2_read_bytes") and base_name(g.r(args[1])) == inb:
             k = const_eval(args[2], env)
             off = 0
